@@ -236,3 +236,30 @@ def caller_stuck_not_capacity(sc, sysm):
 
 def consumer_alive_after_handler_stop(sc, sysm):
   return lambda B, st: B.and_(B.eq(st["g.handler_stopped"], B.const(1)), B.not_(ended(sysm, B, st, 1)))
+
+
+# ---- registry scenario (C25) ------------------------------------------------------------------------------------------------
+def registry_bad(sc, sysm):
+  """everybody finished and: two different names share a number, or a name's number is not its position, or the size is wrong;
+  or somebody crashed"""
+  ops = sc.info["ops"]
+  n0 = sc.info["initial_size"]
+  done = all_done(sc, sysm)
+  crash = any_crash(sc, sysm)
+  new_names = sorted({a for (k, a) in ops if isinstance(a, str) and k in ("append", "event")})
+
+  def f(B, st):
+    bad = []
+    size = st["signals.size"]
+    bad.append(B.not_(B.eq(size, B.const(n0 + len(new_names)))))
+    # numbers of the registered cells must be 1..size in order (a bijection)
+    for i in range(4):
+      bad.append(B.and_(B.ult(B.const(i), size), B.not_(B.eq(st["signals.v%d" % i], B.const(i + 1)))))
+    appenders = [(t, a) for t, (k, a) in enumerate(ops) if k == "append"]
+    for x in range(len(appenders)):
+      for y in range(x + 1, len(appenders)):
+        (ta, na), (tb, nb) = appenders[x], appenders[y]
+        same = B.eq(st["res.%d" % ta], st["res.%d" % tb])
+        bad.append(same if na != nb else B.not_(same))
+    return B.or_(crash(B, st), B.and_(done(B, st), B.or_(*bad)))
+  return f
